@@ -82,27 +82,37 @@ def _collect_unique_dimension(
     if not all(is_any_dimension(num) for num in nums):
         dim = dimensionless
 
+    # NOTE: zero, infinite and NaN terms are compatible with any dimension, therefore they must not
+    # define the dimension the other terms are compared to
+    any_dim = None
+
     for qty in qtys:
-        if dim is None:
-            dim = qty.dimension
+        if is_any_dimension(qty.scale_factor):
+            any_dim = any_dim or qty.dimension
             continue
 
-        if is_any_dimension(qty.scale_factor):
+        if dim is None:
+            dim = qty.dimension
             continue
 
         if not dimsys_SI.equivalent_dims(dim, qty.dimension):
             raise UnitsError(f"The dimension of {qty} is {qty.dimension}, expected {dim}")
 
     for sym_expr, sym_dim in syms:
+        if is_any_dimension(sym_expr):
+            any_dim = any_dim or sym_dim
+            continue
+
         if dim is None:
             dim = sym_dim
             continue
 
-        if is_any_dimension(sym_expr):
-            continue
-
         if not dimsys_SI.equivalent_dims(dim, sym_dim):
             raise UnitsError(f"The dimension of '{sym_expr}' is {sym_dim}, expected {dim}")
+
+    # every term is of any dimension
+    if dim is None:
+        dim = any_dim
 
     # edge case when both `qtys` and `syms` are empty and all `nums` are of any dimension
     if dim is None:
